@@ -333,6 +333,7 @@ class Check:
     level_text = ''
     rule = ''
     assumptions = []
+    unproved = []                  # clauses of the property decided by correspondence + oracle only (no theorem)
 
     def __init__(self, tier, seed):
         self.tier = tier
@@ -466,6 +467,7 @@ class Check:
                        'failures_total': len(orc.failures), 'failures_new': len(new_failures),
                        'histogram': orc.hist, 'notes': orc.notes, 'discarded_near_boundary': orc.discarded},
             'known_findings_reproduced': sorted(reproduced),
+            'unproved': list(self.unproved),
             'leanchecker': lc,
             'exhaustive': False,
         }
